@@ -18,6 +18,8 @@ from harness.xmlobs import codes
 
 PID = "C20"
 ALPH = [" ", "\t", "\n", "\xa0", "a", "b"]
+# letters that Unicode normalisation forms, case mapping or width folding would change: a normaliser of SPACES keeps them
+ODD = ["\u00b5g", "km\u00b2", "\ufb01eld", "\uff1cb\uff1e", "\uff06", "\uff02", "e\u0301", "\u212b", "\u2460", "\uff46", "\u0130", "\u00df", "\u01c6", "\u2026", "\u2122", "\u1e9b\u0323"]
 PROTECTED = ["markup", "literalLayout", "objectName", "attributeName", "para"]
 PLAIN = ["title", "abstract", "section", "value", "emphasis", "dataset", "entityName", "x"]
 
@@ -43,7 +45,7 @@ def rws(rnd, allow_empty=True):
 def rtext(rnd):
     parts = [rws(rnd)]
     for _ in range(rnd.randint(0, 4)):
-        parts.append("".join(rnd.choice("abcXYZ09.,") for _ in range(rnd.randint(1, 6))))
+        parts.append("".join(rnd.choice("abcXYZ09.,") for _ in range(rnd.randint(1, 6))) if rnd.random() < 0.85 else rnd.choice(ODD))
         parts.append(rws(rnd, allow_empty=False))
     if rnd.random() < 0.5 and len(parts) > 1:
         parts[-1] = rws(rnd)
@@ -153,7 +155,7 @@ def run(rep, tier, seed):
     strings = ["".join(t) for L in range(maxlen + 1) for t in itertools.product(ALPH, repeat=L)]
     rnd = random.Random(seed)
     for _ in range(2000 if tier == "quick" else 50000):
-        strings.append("".join(rnd.choice(ALPH + ["c", "é", "漢", " ", "\r"][:3]) for _ in range(rnd.randint(7, 40))))
+        strings.append("".join(rnd.choice(ALPH + ["c", "\u00e9", "\u6f22"] + (ODD if _ % 3 == 0 else [])) for _k in range(rnd.randint(7, 40))))
     evs = [e for chunk in parallel(w_text, strings) for e in chunk]
     nx = 300 if tier == "quick" else 8000
     xevs = [e for chunk in parallel(w_xml, [seed * 1299709 + i for i in range(nx)]) for e in chunk]
